@@ -209,6 +209,7 @@ def run_case(case):
 
         frames, words, snaps = [], [], []   # frames: classification per position in the whole sequence
         delivered, pos, nextf = [], 0, 0
+        delivered_dev = []                  # (frame id, device object that got its items) for the composed machine
 
         def attribute():
             """consume new log entries, attribute them to frames by content"""
@@ -231,6 +232,7 @@ def run_case(case):
                     pos += 1
                 else:
                     delivered.append(hit[0])
+                    delivered_dev.append((hit[0], log[pos][0]))
                     pos += len(hit[1]["items"])
                     nextf = max(nextf, hit[0] + 1)
 
@@ -294,6 +296,18 @@ def run_case(case):
         for d in proto.data.values():
             by_addr.setdefault(int(getattr(d, "address", -1)), set()).add(id(d))
         extra["several_devices_for_one_address"] = any(len(v) > 1 for v in by_addr.values())
+        # which device got which frame: named by (address of the object, 0 = it is THE published entry of that address /
+        # k >= 1 = another object)
+        pairs = []
+        for fid, owner in delivered_dev:
+            addr = int(getattr(owner, "address", -1))
+            try:
+                entry = proto.data.get(DeviceType(addr).name.lower())
+            except ValueError:
+                entry = None
+            pairs.append((fid, addr if owner is entry else 1000 + addr))
+        extra["delivered_to"] = sorted(pairs)
+        extra["device_map"] = sorted(int(getattr(d, "address", -1)) for d in proto.data.values())
     return dict(words=words, snaps=snaps, final=final, extra=extra, frames=frames)
 
 
@@ -681,6 +695,20 @@ def report_stall(res, case, r):
              f"a step of the run did not come back within {r['stalled']['cpu_s']:.0f} s of CPU: received frames stall the pipeline")
 
 
+def _creatable():
+    out = []
+    for a in (ECOMAX, ECOSTER, ECONET, ALL):
+        try:
+            device_class(a)
+            out.append(a)
+        except Exception:  # noqa: BLE001
+            pass
+    return out
+
+
+CR_WORD = ",".join(map(str, _creatable())) or "-"
+
+
 def evaluate(res, cases):
     runs, kept = [], []
     for c in cases:
@@ -703,7 +731,9 @@ def evaluate(res, cases):
     judge = driver_batch(
         f"c09judge {c['consumers']} {net_word(c)} " + " ".join(w for ws in r["words"] for w in ws if w != "H") + " | "
         + show_snap(r["final"], r["final"]["responses"]) + f" {int(r['final']['shutdown'])}" for c, r in zip(cases, runs))
-    for case, r, m, v in zip(cases, runs, model, judge):
+    pipe = driver_batch(
+        f"c09pipe {c['consumers']} {net_word(c)} {VER_WORD} {CR_WORD} " + " | ".join(" ".join(ws) for ws in r["words"]) for c, r in zip(cases, runs))
+    for case, r, m, v, pm in zip(cases, runs, model, judge, pipe):
         frames = r["frames"]
         nrais = sum(1 for f in frames if f["raises"])
         nreq = sum(1 for f in frames if f["word"][0] in "pc" and f["word"].split(":")[2] == "1")
@@ -769,6 +799,22 @@ def evaluate(res, cases):
         if [canon_order(x) for x in exp] != [canon_order(x) for x in got]:
             k = next((i for i, (a, b) in enumerate(zip(exp, got)) if canon_order(a) != canon_order(b)), min(len(exp), len(got)))
             res.fail("corr", inp, exp, got, f"pool machine and AsyncProtocol differ at batch {k}", words=r["words"])
+        # the composed machine (Model/Pipe.lean): every delivered frame went to THE entry of its sender's address, the device
+        # map holds one object per address that delivered or raised after creation, nothing is left in the write queue
+        if pm != "bad-op":
+            pw = pm.split(" ")
+            exp_pairs = sorted((int(a), int(b)) for a, b in (x.split(".") for x in pw[0].split(","))) if pw[0] != "-" else []
+            exp_map = sorted(int(x.split(".")[0]) for x in pw[1].split(",")) if pw[1] != "-" else []
+            got_pairs = [tuple(p) for p in r["extra"]["delivered_to"] if p[0] != JUNK]
+            if exp_pairs != got_pairs:
+                res.fail("spec" if any(b >= 1000 for _, b in got_pairs) else "corr", inp, exp_pairs, got_pairs,
+                         "composed pipeline: a delivered frame was not handled by THE device entry of its sender's address "
+                         "(Pipe machine: C09Pipe.handled_by_the_device)")
+            elif exp_map != r["extra"]["device_map"]:
+                res.fail("corr", inp, exp_map, r["extra"]["device_map"], "composed pipeline: the device map differs from the Pipe machine's")
+            res.count("composed-pipeline-compared")
+        else:
+            res.fail("corr", inp, "model answer", "bad-op", "driver rejected the c09pipe request")
         if not r["final"]["shutdown"] and v == "pass":
             res.fail("spec", inp, "shutdown completes", r["extra"], "shutdown() did not complete")
         if r["extra"]["write_queue_left"]:
